@@ -4,10 +4,10 @@ id=$1; dir=/verif/seeded/$id
 wt=/tmp/sv_$id
 git -C /repo worktree add -q --detach $wt HEAD || exit 2
 res=""
-( cd $wt && /venv/bin/python $dir/demo.py >/tmp/sv_$id.base.out 2>&1 ); base=$?
+( cd $wt && PYTHONPATH=$wt /venv/bin/python $dir/demo.py >/tmp/sv_$id.base.out 2>&1 ); base=$?
 if git -C $wt apply $dir/patch.diff 2>/dev/null; then
-  tests=$(cd $wt && /venv/bin/python -m pytest -q -p no:cacheprovider 2>&1 | tail -1)
-  ( cd $wt && /venv/bin/python $dir/demo.py >/tmp/sv_$id.mut.out 2>&1 ); mut=$?
+  tests=$(cd $wt && PYTHONPATH=$wt /venv/bin/python -m pytest -q -p no:cacheprovider 2>&1 | tail -1)
+  ( cd $wt && PYTHONPATH=$wt /venv/bin/python $dir/demo.py >/tmp/sv_$id.mut.out 2>&1 ); mut=$?
   res="applies base_demo_exit=$base tests='$tests' mutant_demo_exit=$mut"
 else
   res="PATCH DOES NOT APPLY to HEAD (base_demo_exit=$base)"
